@@ -21,7 +21,11 @@ RECURSIVE SetAll(_, _, _)
 SetAll(s, ps, k) == IF k > Len(ps) THEN s ELSE SetAll(SetP(s, ps[k][1] + 1, ps[k][2]), ps, k + 1)
 
 \* the state of the object after an exception must be the state before it, on every read-out the driver made
-Clean(ln, psi) == \A k \in DOMAIN ln.re : ln.re[k].vok /\ ln.re[k].val = psi
+\* (kind "vec": the dense state; kind "ez": <Z_i> for every qubit, for the Heisenberg-picture simulator)
+Clean(ln, psi) == \A k \in DOMAIN ln.re :
+                     /\ ln.re[k].vok
+                     /\ ln.re[k].val = IF ln.re[k].kind = "vec" THEN psi
+                                       ELSE [i \in 1..n |-> Expec(psi, ZM, <<i - 1>>, n)]
 
 \* value of a query according to the reference definitions
 Expected(ln, psi, gates) ==
@@ -40,7 +44,10 @@ QueryClauses(ln, psi, gates) ==
   ELSE LET name == CASE ln.kind = "amp" -> "AmplitudeAgrees" [] ln.kind = "dense" -> "DenseAgrees"
                      [] ln.kind = "uni" -> "UniAgrees" [] ln.kind = "ptr" -> "PartialTraceAgrees"
                      [] ln.kind = "expec" -> "LocalExpectationAgrees" [] ln.kind = "marg" -> "MarginalAgrees"
-       IN  << <<name, ln.exc = "" /\ ln.vok /\ ln.val = Expected(ln, psi, gates)>> >>
+           want == Expected(ln, psi, gates)
+       IN  \* conditioning on an outcome of probability zero: the joint tensor is 0, an exception is accepted too
+           IF ln.kind = "marg" /\ ln.exc # "" /\ \A k \in DOMAIN want : IsZero(want[k]) THEN << <<name, TRUE>> >>
+           ELSE << <<name, ln.exc = "" /\ ln.vok /\ ln.val = want>> >>
 
 \* relational records: the driver measured (plain numpy) the distance to the statevector simulation / to a fresh
 \* circuit built from the same gate list, quantised in units of the tolerance
@@ -56,15 +63,21 @@ Clauses(ln) ==
                           ELSE << <<"RejectClean", Clean(ln, reg)>> >>
     [] ln.ev \in {"setp", "updp"} -> IF ln.exc = "" THEN <<>> ELSE << <<"RejectClean", Clean(ln, reg)>> >>
     [] ln.ev = "copy"  -> << <<"CopyReturns", ln.exc = "">> >>
-    [] ln.ev = "query" -> IF ln.on = "orig" THEN QueryClauses(ln, saved, savedgs) ELSE QueryClauses(ln, reg, gs)
+    [] ln.ev = "switch" -> <<>>
+    [] ln.ev = "rebuild" -> << <<"AcceptedGatesReapply", ln.exc = "">> >>
+    [] ln.ev = "query" -> QueryClauses(ln, reg, gs)
     \* the gate's own matrix on the exact grid: textbook value, unitary (computed by TLC from the observed entries)
     [] ln.ev = "gatedef" -> << <<"GateMatrixTextbook", ln.vok /\ ln.mat = GateMat(ln.name, ln.p)>>,
                                <<"GateUnitary", ln.vok /\ IsUnitary(ln.mat)>> >>
     \* relational
     [] ln.ev = "unitary" -> << <<"GateUnitary", ln.exc = "" /\ ln.dq = 0>> >>
-    [] ln.ev = "rel"     -> << <<RelName(ln.kind), ln.exc = "" /\ ln.dq = 0>> >>
+    [] ln.ev = "rel"     -> << <<RelName(ln.kind), (ln.exc = "" /\ ln.dq = 0) \/ (ln.exc # "" /\ Has(ln, "zerocond") /\ ln.zerocond)>> >>
     [] ln.ev = "relrej"  -> << <<"RejectClean", ln.dq = 0>> >>
-    [] ln.ev = "stale"   -> << <<"NoStaleCache", ln.exc = "" /\ ln.dq = 0>> >>
+    \* end of a history: the long-lived object against the numpy simulation (dqref) and against a fresh object
+    \* that was given the same gate list and asked nothing before (dq)
+    [] ln.ev = "stale"   -> LET zc == ln.exc # "" /\ Has(ln, "zerocond") /\ ln.zerocond IN
+                            << <<RelName(ln.kind), (ln.exc = "" /\ ln.dqref = 0) \/ zc>>,
+                               <<"NoStaleCache", (ln.exc = "" /\ ln.dq = 0) \/ zc>> >>
     [] ln.ev = "agree"   -> << <<"AllClassesAgree", ln.dq = 0>> >>
     [] OTHER -> << <<"UnknownEvent", FALSE>> >>
 
@@ -83,6 +96,8 @@ TNext ==
         THEN LET g2 == SetAll(gs, ln.ps, 1) IN gs' = g2 /\ reg' = Run(n, g2) /\ UNCHANGED <<n, saved, savedgs>>
         ELSE IF ln.ev = "copy" /\ ln.exc = ""
         THEN saved' = reg /\ savedgs' = gs /\ UNCHANGED <<n, gs, reg>>
+        ELSE IF ln.ev = "switch"      \* the driver continues on the other object (the copy / the original)
+        THEN saved' = reg /\ savedgs' = gs /\ reg' = saved /\ gs' = savedgs /\ UNCHANGED n
         ELSE UNCHANGED <<n, gs, reg, saved, savedgs>>
   /\ l' = l + 1
 TSpec == TInit /\ [][TNext]_tvars
